@@ -120,8 +120,8 @@ def normalise_idle(st):
         if isinstance(v, tuple) and v and v[0] in ('tdict', 'dcopy'):
             st[k] = OPAQUE
             continue
-        if isinstance(v, tuple) and v and v[0] == 'enum':
-            st[k] = ('enum', v[1], 'older')
+        if isinstance(v, tuple) and v and v[0] in ('enum', 'enumf'):
+            st[k] = (v[0], v[1], 'older')
         elif isinstance(v, tuple) and len(v) == 2 and v[0] == 'param' and not v[1].endswith('@old'):
             # an argument of an earlier test kept in the object: not known to be (or not to be)
             # the object a later test passes
